@@ -167,14 +167,33 @@ Definition model_b (c : case) : bool :=
 Definition model_spec (c : case) : bool :=
   let '(chs, lost) := m_out c in spec_core c (trashes chs) (pulls chs) lost.
 
+(* ---------- hypotheses of the _partial theorem (proofs/C05_spec.v: hyp_b c = true -> model_spec c = true) ---------- *)
+Fixpoint nodupb (l : list nat) : bool :=
+  match l with [] => true | x :: r => negb (mem x r) && nodupb r end.
+Definition hyp_b (c : case) : bool :=
+  let eff := setup (c_raw c) (c_sro c) in
+  (* every device is mounted once *)
+  nodupb (map mid eff) && nodupb (filter nz (map dev eff)) &&
+  (* replicas refer to known mounts; Desired has one entry per class *)
+  forallb (fun r => existsb (fun x => mid x =? fst r) (c_raw c)) (c_repl c) &&
+  nodupb (map fst (c_desired c)) &&
+  (* every desired class is offered by some mount, on pairwise different servers *)
+  forallb (fun kd => negb (0 <? snd kd) ||
+                     (mem (fst kd) (classes_of (c_dflt c) eff) &&
+                      nodupb (map msrv (filter (inclass (c_dflt c) (fst kd)) eff)))) (c_desired c) &&
+  (* something is writable *)
+  existsb (fun m => negb (mro m)) eff.
+
+
 (* A failing case counts as an instance of a known finding only if it lies inside that finding's
-   predicate AND (when the outcome is determined) the faithful model of the current code fails the
+   predicate AND lies outside the hypotheses under which the model is proved to meet the specification
+   AND (when the outcome is determined) the faithful model of the current code fails the
    specification on it too; otherwise it is a new violation (+2). *)
 Definition check_case (c : case) : N :=
   let m := if model_b c then 0%N else 1%N in
   let s := spec_bits c (o_trash c) (o_pull c) (o_lost c) in
   let s' := if N.eqb s 0 then 0%N
-            else if no_ties c && model_spec c then N.lor 2 s else s in
+            else if hyp_b c || (no_ties c && model_spec c) then N.lor 2 s else s in
   (m + s')%N.
 
 Fixpoint failing_from (i : N) (cs : list case) : list (N * N) :=
